@@ -108,6 +108,8 @@ def cases(tier, seed):
                 nm = nmax if name != 'hyperu' else (4 if tier == 'quick' else 7)
                 for (x, cls) in _points(name, TABLE[name][2], rng, tier):
                     out.append({'kind': 'smooth', 'seed': s, 'params': {'fn': name, 'prm': list(prm), 'x': x, 'cls': cls, 'nmax': nm}})
+            if name == 'polygamma':
+                out.append({'kind': 'polygamma_array', 'seed': case_seed('C16', seed, 'polygamma_array'), 'params': {'fn': name, 'nmax': 5}})
         elif name in PIECEWISE:
             s = case_seed('C16', seed, name)
             out.append({'kind': 'piecewise', 'seed': s, 'params': {'fn': name, 'nmax': nmax}})
@@ -126,11 +128,16 @@ def _call(f, prm, x, n, use_out):
     if use_out == 1:
         out = np.empty_like(xa)
         r = f(*(list(prm) + [xa]), out=out, n=n)
-        return np.asarray(r)
-    if use_out == 2:
+    elif use_out == 2:
         r = f(*(list(prm) + [xa]), out=xa, n=n)
-        return np.asarray(r)
-    return np.asarray(f(*(list(prm) + [xa]), n=n))
+    else:
+        r = f(*(list(prm) + [xa]), n=n)
+    val = np.array(r, copy=True)
+    # the caller owns what it got: scaling it in place must not show up in any later call
+    if isinstance(r, np.ndarray) and r.flags.writeable and r.dtype.kind in 'fc':
+        r *= 0.25
+        r += 3.0
+    return val
 
 
 def run_case(ctx, case):
@@ -139,6 +146,22 @@ def run_case(ctx, case):
     f = getattr(ND, name)
     if case['kind'] == 'unknown':
         ctx.skip('no-reference:' + name)
+        return
+    if case['kind'] == 'polygamma_array':
+        # the order m given as an array (one order per point, the scipy idiom polygamma([0, 1, 2], x)), mixing 0 and non-zero orders
+        rng = gen.rng_of(case)
+        for ms in ([0, 1, 2], [2, 0, 0], [0, 0, 3], [1, 1, 1]):
+            xs = rng.uniform(0.4, 3.0, size=len(ms))
+            for n in range(p['nmax'] + 1):
+                try:
+                    got = np.asarray(f(np.array(ms), xs.copy(), n=n))
+                except Exception as e:
+                    ctx.violation('polygamma:array-valued-order:raises', {'m': ms, 'n': n, 'error': repr(e)[:160]}); return
+                ref = [mp.psi(m_ + n, mp.mpf(float(x_))) for m_, x_ in zip(ms, xs)]
+                bad = got.shape != (len(ms),) or any(not (np.isfinite(g) and abs(mp.mpf(float(g)) - r) <= 1e-8 * (abs(r) + 1)) for g, r in zip(got.reshape(-1), ref))
+                if bad:
+                    ctx.violation('polygamma:array-valued-order:value', {'m': ms, 'n': n, 'x': xs.tolist(), 'got': got.tolist(), 'want': [float(r) for r in ref]}); return
+                ctx.ok('polygamma', ('polygamma', 'array-m', tuple(ms), n))
         return
     if case['kind'] == 'piecewise':
         return _piecewise(ctx, name, f, p, gen.rng_of(case))
